@@ -29,6 +29,26 @@ use world::{RingCfg, World};
 pub struct History {
     pub cfg: RingCfg,
     pub steps: Vec<Step>,
+    /// Generated teardown order (C12); `None` = default order.
+    #[serde(default)]
+    pub teardown: Option<Teardown>,
+}
+
+/// Teardown(pi): a generated permutation of dropping every object of the
+/// history, some on a helper thread.
+#[derive(Clone, Debug, Serialize, Deserialize, Default)]
+pub struct Teardown {
+    /// Priority per object (objects are numbered Ring, queue handles,
+    /// descriptor, operations, pool, pool buffers); lower drops first.
+    pub priorities: Vec<u16>,
+    /// Drop the k-th object on a helper thread.
+    pub on_thread: Vec<bool>,
+    /// Additional SubmissionQueue clones.
+    pub extra_sq: u8,
+    /// A ReadBufPool of 2^log2 buffers with `bufs` ReadBufs held.
+    pub pool: Option<(u8, u8)>,
+    /// Call wake() on a surviving queue handle after the Ring is gone.
+    pub wake_after: bool,
 }
 
 #[derive(Clone, Debug, Serialize, Deserialize)]
@@ -88,6 +108,8 @@ pub struct Oracles {
     pub c06: bool,
     /// C09: restart transparency.
     pub c09: bool,
+    /// C12: teardown in any order.
+    pub c12: bool,
 }
 
 #[derive(Copy, Clone, Debug, PartialEq, Eq)]
@@ -156,6 +178,9 @@ pub struct Exec<'a> {
     /// Scripted answers to cancellation requests, keyed by target user_data.
     cancel_script: std::sync::Arc<std::sync::Mutex<BTreeMap<u64, CancelChoice>>>,
     submit_order: u64,
+    pool: Option<a10::io::ReadBufPool>,
+    readbufs: Vec<a10::io::ReadBuf>,
+    extra_sq: Vec<a10::SubmissionQueue>,
 }
 
 struct ExecPtr(*mut ());
@@ -202,7 +227,78 @@ impl<'a> Exec<'a> {
                 script
             },
             submit_order: 0,
+            pool: None,
+            readbufs: Vec::new(),
+            extra_sq: Vec::new(),
         })
+    }
+
+    /// C12 set-up: extra queue handles, a pool with some ReadBufs held.
+    fn setup_teardown_objects(&mut self, t: &Teardown) {
+        for _ in 0..t.extra_sq.min(3) {
+            let sq = self.world.sq();
+            self.extra_sq.push(sq);
+        }
+        let Some((log2, nbufs)) = t.pool else { return };
+        let pool_size: u16 = 1 << log2.min(3);
+        let pool = {
+            let _s = track::scope(track::TAG_A10);
+            a10::io::ReadBufPool::new(self.world.sq(), pool_size, 64)
+        };
+        let Ok(pool) = pool else {
+            self.ctx.infra("pool creation failed");
+            self.stop = true;
+            return;
+        };
+        // Fill some buffers through pool reads completed inline.
+        let hook: sim::EnterHook = Box::new(|ring, info| {
+            for s in &info.consumed {
+                let Some(req) = ring.req(*s).cloned() else { continue };
+                if req.sqe.opcode == abi::OP_READ && req.sqe.flags & abi::IOSQE_BUFFER_SELECT != 0 && !req.done {
+                    match ring.select_buffer(req.sqe.buf_group) {
+                        Some(e) => {
+                            unsafe { std::ptr::write_bytes(e.addr as *mut u8, 0x42, 8.min(e.len as usize)) };
+                            ring.complete(*s, 8.min(e.len as i32), abi::CQE_F_BUFFER | ((e.bid as u32) << abi::CQE_BUFFER_SHIFT), false);
+                        }
+                        None => {
+                            ring.complete(*s, -libc::ENOBUFS, 0, false);
+                        }
+                    }
+                }
+            }
+        });
+        sim::sim().enter_hook = Some(hook);
+        let afd = self.world.fd(self.fd);
+        for _ in 0..(nbufs as u16).min(pool_size) {
+            let w = WakerHandle::new();
+            let mut fut = {
+                let _s = track::scope(track::TAG_A10);
+                Box::pin(afd.read(pool.get()))
+            };
+            for _ in 0..6 {
+                let mut cx = Context::from_waker(&w.waker);
+                let r = {
+                    let _s = track::scope(track::TAG_A10);
+                    std::future::Future::poll(fut.as_mut(), &mut cx)
+                };
+                match r {
+                    Poll::Ready(Ok(b)) => {
+                        self.readbufs.push(b);
+                        break;
+                    }
+                    Poll::Ready(Err(_)) => break,
+                    Poll::Pending => {
+                        let _ = self.world.poll_ring(Some(Duration::ZERO));
+                    }
+                }
+            }
+            let _s = track::scope(track::TAG_A10);
+            drop(fut);
+        }
+        sim::sim().enter_hook = None;
+        self.pool = Some(pool);
+        self.events_seen = sim::events_len();
+        self.feat("pool");
     }
 
     fn feat(&mut self, f: impl Into<String>) {
@@ -1101,6 +1197,297 @@ impl<'a> Exec<'a> {
     }
 }
 
+struct SendBox<T>(T);
+unsafe impl<T> Send for SendBox<T> {}
+
+/// Drop `v`, on a helper thread if asked. Returns a panic description.
+fn drop_somewhere<T: 'static>(v: T, on_thread: bool) -> Result<(), (String, String)> {
+    if on_thread {
+        let b = SendBox(v);
+        catch(move || {
+            std::thread::spawn(move || {
+                let _s = track::scope(track::TAG_A10);
+                let b = b;
+                drop(b);
+            })
+            .join()
+            .map_err(|_| ())
+        })
+        .and_then(|r| r.map_err(|()| ("panic on the helper thread".to_string(), String::new())))
+    } else {
+        let _s = track::scope(track::TAG_A10);
+        catch(move || drop(v))
+    }
+}
+
+#[derive(Copy, Clone, Debug, PartialEq, Eq)]
+enum Obj {
+    Ring,
+    Sq(usize),
+    Fd,
+    Op(usize),
+    Pool,
+    Buf(usize),
+}
+
+impl<'a> Exec<'a> {
+    /// C12: drop everything in the generated order and audit.
+    pub fn finish_teardown(mut self, t: &Teardown) -> BTreeSet<String> {
+        self.sync_events();
+        self.update_consumed();
+        let ring_fd = self.world.ring_fd;
+        let maps_before = crate::shims::sim_maps();
+        // Objects.
+        let mut objs = vec![Obj::Ring, Obj::Sq(0)];
+        for k in 0..self.extra_sq.len() {
+            objs.push(Obj::Sq(k + 1));
+        }
+        objs.push(Obj::Fd);
+        for i in 0..self.ops.len() {
+            if self.ops[i].fut.is_some() {
+                objs.push(Obj::Op(i));
+            }
+        }
+        if self.pool.is_some() {
+            objs.push(Obj::Pool);
+        }
+        for k in 0..self.readbufs.len() {
+            objs.push(Obj::Buf(k));
+        }
+        let prio = |k: usize| t.priorities.get(k % t.priorities.len().max(1)).copied().unwrap_or(k as u16);
+        let mut order: Vec<(u16, usize, Obj)> = objs.iter().enumerate().map(|(k, o)| (prio(k), k, *o)).collect();
+        order.sort_by_key(|o| (o.0, o.1));
+        let ring_pos = order.iter().position(|o| o.2 == Obj::Ring).unwrap();
+        if ring_pos + 1 < order.len() {
+            self.feat("ring-not-last");
+        }
+        let mut readbufs: Vec<Option<a10::io::ReadBuf>> = std::mem::take(&mut self.readbufs).into_iter().map(Some).collect();
+        let mut extra_sq: Vec<Option<a10::SubmissionQueue>> = std::mem::take(&mut self.extra_sq).into_iter().map(Some).collect();
+        let mut ring_gone = false;
+        let mut inflight_at_ring_drop = 0usize;
+
+        for (_, k, obj) in order {
+            if self.stop {
+                break;
+            }
+            let on_thread = t.on_thread.get(k % t.on_thread.len().max(1)).copied().unwrap_or(false);
+            if on_thread {
+                self.feat("helper-thread-drop");
+            }
+            let r = match obj {
+                Obj::Ring => {
+                    self.sync_events();
+                    self.update_consumed();
+                    let pending_before = sim::sim().ring(ring_fd).map_or(0, |r| r.sq_pending());
+                    inflight_at_ring_drop = self.ops.iter().filter(|o| o.phase != Phase::NotSubmitted && !o.final_consumed && o.attempts > 0).count();
+                    if inflight_at_ring_drop > 0 || pending_before > 0 {
+                        self.feat("ring-dropped-with-work");
+                    }
+                    let events_before = sim::events_len();
+                    let ring = self.world.ring.take();
+                    let r = drop_somewhere(ring, on_thread);
+                    ring_gone = true;
+                    self.sync_events();
+                    if r.is_ok() {
+                        let (pending, still) = {
+                            let mut s = sim::sim();
+                            match s.ring(ring_fd) {
+                                Some(r) => (r.sq_pending(), r.inflight.iter().filter(|q| !q.done && q.sqe.user_data >= 4).count()),
+                                None => (0, 0),
+                            }
+                        };
+                        if pending != 0 {
+                            self.violation("C12:queued-not-submitted", format!("dropping the Ring left {pending} queued submissions unsubmitted"));
+                        }
+                        let evs = sim::events_since(events_before.min(sim::events_len()));
+                        let cancelled = evs.iter().any(|e| matches!(e, SimEvent::Register { opcode, .. } if *opcode == abi::REGISTER_SYNC_CANCEL));
+                        if !cancelled {
+                            self.violation("C12:no-cancel-all", "dropping the Ring did not cancel what is still running (no IORING_REGISTER_SYNC_CANCEL)".into());
+                        }
+                        if still != 0 {
+                            self.violation("C12:still-running", format!("{still} operations are still in flight in the kernel after the Ring was dropped"));
+                        }
+                        // Abandoned operations are reclaimed by the Ring's drop.
+                        self.update_consumed();
+                        for i in 0..self.ops.len() {
+                            if self.ops[i].phase == Phase::Dropped && self.ops[i].dropped_while_running {
+                                let op = &self.ops[i];
+                                if let Some(serial) = op.state_serial {
+                                    let addr = (op.user_data & !1) as usize;
+                                    if track::lookup(addr).is_some_and(|b| b.serial == serial) {
+                                        self.violation("C12:abandoned-state-not-reclaimed", format!("the state of abandoned operation {i} is still allocated after the Ring was dropped"));
+                                    }
+                                }
+                            }
+                        }
+                        if t.wake_after {
+                            if let Some(sq) = self.world.sq.as_ref().or(extra_sq.iter().flatten().next()) {
+                                let before = sim::events_len();
+                                let r = catch(|| sq.wake());
+                                if let Err((msg, loc)) = r {
+                                    self.violation("C12:panic:wake-after-ring", format!("wake() after the Ring was dropped panicked at {loc}: {msg}"));
+                                }
+                                if sim::events_len() != before {
+                                    self.violation("C12:wake-after-ring-syscall", "wake() after the Ring was dropped made a system call on the ring".into());
+                                }
+                                self.feat("wake-after-ring");
+                            }
+                        }
+                    }
+                    r
+                }
+                Obj::Sq(0) => drop_somewhere(self.world.sq.take(), on_thread),
+                Obj::Sq(n) => drop_somewhere(extra_sq[n - 1].take(), on_thread),
+                Obj::Fd => {
+                    // Futures borrowing the descriptor go first.
+                    for i in 0..self.ops.len() {
+                        if self.ops[i].fut.is_some() {
+                            self.teardown_drop_op(i, false, ring_gone);
+                        }
+                    }
+                    if ring_gone {
+                        self.feat("fd-after-ring");
+                    }
+                    let ptr = self.world.fds[self.fd].take();
+                    let b = ptr.map(|p| SendBox(unsafe { Box::from_raw(p) }));
+                    drop_somewhere(b, on_thread)
+                }
+                Obj::Op(i) => {
+                    if self.ops[i].fut.is_some() {
+                        self.teardown_drop_op(i, on_thread, ring_gone);
+                    }
+                    Ok(())
+                }
+                Obj::Pool => {
+                    if ring_gone {
+                        self.feat("pool-after-ring");
+                    }
+                    drop_somewhere(self.pool.take(), on_thread)
+                }
+                Obj::Buf(n) => {
+                    if ring_gone {
+                        self.feat("buf-after-ring");
+                    }
+                    drop_somewhere(readbufs[n].take(), on_thread)
+                }
+            };
+            if let Err((msg, loc)) = r {
+                self.violation(&format!("C12:panic:{obj:?}").replace(|c: char| c.is_ascii_digit(), ""), format!("dropping {obj:?} panicked at {loc}: {msg}"));
+            }
+            self.sync_events();
+            // Tracker events under C12 signatures.
+            for e in track::take_events() {
+                match e {
+                    track::Event::FreedWhileHeld { hold, block } => {
+                        let what = hold.what;
+                        self.violation(&format!("C12:freed-while-kernel-holds:{what}"), format!("dropping {obj:?}: block {:#x}+{} freed while the kernel still holds {what} ({:#x}+{})", block.addr, block.size, hold.addr, hold.len));
+                    }
+                    track::Event::ForeignFree { addr, size } => {
+                        self.violation("C12:double-free", format!("dropping {obj:?}: free of {addr:#x} (size {size}) which is not a live block"));
+                    }
+                }
+            }
+        }
+
+        // Everything is gone: audits.
+        if !self.stop {
+            let log = crate::shims::log_snapshot();
+            // Mappings: every mapping made on the ring descriptor is unmapped
+            // exactly once with the same (addr, len); nothing else is unmapped.
+            let mut live: Vec<(usize, usize)> = maps_before.iter().filter(|m| m.2 == ring_fd).map(|m| (m.0, m.1)).collect();
+            let mut last_unmap = 0usize;
+            let mut close_at = None;
+            for (n, e) in log.iter().enumerate() {
+                match e {
+                    crate::shims::ShimEvent::Munmap { addr, len, ret } => {
+                        if let Some(p) = live.iter().position(|m| *m == (*addr, *len)) {
+                            if *ret == 0 {
+                                live.remove(p);
+                                last_unmap = n;
+                            }
+                        } else {
+                            self.violation("C12:munmap-mismatch", format!("munmap({addr:#x}, {len}) does not match a mapping of the ring (still mapped: {live:?})"));
+                        }
+                    }
+                    crate::shims::ShimEvent::Close { fd, ret: 0 } if *fd == ring_fd => {
+                        if close_at.is_some() {
+                            self.violation("C12:ring-fd-closed-twice", format!("the ring descriptor {ring_fd} was closed twice"));
+                        }
+                        close_at = Some(n);
+                    }
+                    _ => {}
+                }
+            }
+            if !live.is_empty() {
+                self.violation("C12:mapping-leaked", format!("all handles are gone but the ring mappings {live:?} were never unmapped"));
+            }
+            match close_at {
+                None => self.violation("C12:ring-fd-leaked", format!("all handles are gone but the ring descriptor {ring_fd} was never closed")),
+                Some(n) if n < last_unmap => self.violation("C12:ring-fd-closed-early", "the ring descriptor was closed before its mappings were unmapped".into()),
+                _ => {}
+            }
+            // Descriptors.
+            let open: Vec<i32> = sim::sim().issued_fds.iter().filter(|(_, open)| **open).map(|(fd, _)| *fd).collect();
+            let really_open: Vec<i32> = open.into_iter().filter(|fd| unsafe { libc::fcntl(*fd, libc::F_GETFD) } != -1).collect();
+            if !really_open.is_empty() {
+                let sig = if self.feats.contains("fd-after-ring") { "C12:descriptor-left-behind:fd-dropped-after-ring" } else { "C12:descriptor-left-behind" };
+                self.violation(sig, format!("all handles are gone but descriptors {really_open:?} are still open"));
+            }
+            // Registrations: a buffer ring still registered means its memory
+            // was freed under the kernel (caught above) or leaked.
+            let registered = sim::sim().rings.iter().filter(|r| r.fd == ring_fd).map(|r| r.pbufs.len()).sum::<usize>();
+            if registered != 0 && self.pool.is_none() {
+                self.violation("C12:pool-still-registered", format!("{registered} buffer rings are still registered after the pool was dropped"));
+            }
+            let leaks = track::live_since(self.world.mark);
+            if !leaks.is_empty() {
+                let desc: Vec<String> = leaks.iter().take(4).map(|b| format!("{:#x}+{} tag {}", b.addr, b.size, b.tag)).collect();
+                let overflowed = sim::sim().rings.iter().any(|r| r.fd == ring_fd && !r.overflow.is_empty());
+                let sig = if overflowed { "C12:leak-at-end:cq-overflow-at-ring-drop" } else { "C12:leak-at-end" };
+                self.violation(sig, format!("{} blocks allocated during the history are still live after everything was dropped: {}", leaks.len(), desc.join(", ")));
+            }
+            for op in &mut self.ops {
+                // The model's own copies.
+                op.stale_blocked.clear();
+            }
+            for i in 0..self.ops.len() {
+                if self.ops[i].waker.foreign_refs() != 0 {
+                    let n = self.ops[i].waker.foreign_refs();
+                    self.violation("C12:waker-leaked", format!("{n} clones of the waker of operation {i} are still alive after everything was dropped"));
+                    break;
+                }
+            }
+        }
+        let _ = inflight_at_ring_drop;
+        track::forget_since(self.world.mark);
+        self.feats.clone()
+    }
+
+    fn teardown_drop_op(&mut self, i: usize, on_thread: bool, ring_gone: bool) {
+        self.sync_events();
+        self.update_consumed();
+        let op = &self.ops[i];
+        let running = op.phase == Phase::Submitted && !op.final_consumed;
+        let state = match op.phase {
+            Phase::NotSubmitted => "unpolled-or-blocked",
+            Phase::Submitted if op.final_consumed => "finished",
+            Phase::Submitted if op.serial.is_some() => "running",
+            Phase::Submitted => "queued",
+            _ => "other",
+        };
+        self.feat(format!("teardown-op:{state}{}", if ring_gone { ":after-ring" } else { "" }));
+        let fut = self.ops[i].fut.take();
+        let r = drop_somewhere(fut.map(SendBox), on_thread);
+        if running {
+            self.ops[i].dropped_while_running = true;
+        }
+        self.ops[i].phase = Phase::Dropped;
+        if let Err((msg, loc)) = r {
+            self.violation("C12:panic:op", format!("dropping operation {i} ({state}) panicked at {loc}: {msg}"));
+        }
+    }
+}
+
 pub fn trace_on() -> bool {
     static ON: std::sync::OnceLock<bool> = std::sync::OnceLock::new();
     *ON.get_or_init(|| std::env::var_os("A10VERIF_TRACE").is_some())
@@ -1123,7 +1510,7 @@ pub fn warmup() {
         steps.push(Step::Kernel(KAct::Complete { op: 0 }));
     }
     steps.push(Step::DropOp { op: 0, cancel: CancelChoice::Wins });
-    let h = History { cfg: RingCfg::simple(1), steps };
+    let h = History { cfg: RingCfg::simple(1), steps, teardown: None };
     for _ in 0..2 {
         let mut ctx = Ctx::new("warmup", &[], crate::common::Tier::Quick);
         let _ = execute(&h, Oracles::default(), &mut ctx);
@@ -1140,8 +1527,14 @@ pub fn execute(h: &History, oracles: Oracles, ctx: &mut Ctx) -> BTreeSet<String>
     if h.cfg.cq_start.near_wrap() {
         exec.feats.insert("cq-near-wrap".into());
     }
+    if let (true, Some(t)) = (oracles.c12, &h.teardown) {
+        exec.setup_teardown_objects(t);
+    }
     for step in &h.steps {
         exec.step(step);
     }
-    exec.finish()
+    match (&h.teardown, oracles.c12) {
+        (Some(t), true) => exec.finish_teardown(t),
+        _ => exec.finish(),
+    }
 }
